@@ -510,9 +510,27 @@ func oracleC06(c *Case, res *Result) []Violation {
 	if st := findResult(res, "setup", 0); st != nil && len(st.Ops) == 0 {
 		tag += "/emptystore"
 	}
+	cold := false
 	for _, ph := range c.Phases[:lastGroupIdx(c)] {
 		if ph.Kind == "restart" {
-			tag += "/coldcache" // the group starts with empty caches: store info is loaded from file by racing transactions
+			cold = true // the group starts with empty caches: store info is loaded from file by racing transactions
+		}
+	}
+	perTask := map[string]int{}
+	for _, f := range res.Sim.Fired {
+		perTask[f.Task]++
+		if f.Kind == "lost" || f.Kind == "miss" {
+			cold = true // an injected cache loss puts the reader in the same position as a cold cache
+		}
+	}
+	if cold {
+		tag += "/coldcache"
+	}
+	for _, n := range perTask {
+		if n >= 2 {
+			// the second failure of one transaction can hit the undo of its failed commit; what a
+			// rollback leaves behind on a disk that keeps failing is not judged (as in C01)
+			return nil
 		}
 	}
 	bad := map[string]map[string]string{} // store -> observer label -> message
